@@ -50,7 +50,14 @@ def confirm(seed_dir: Path):
         # run the checks against the patched tree
         caught = {}
         cenv = dict(os.environ, ESV_REPO=str(wt), ESV_EVIDENCE_DIR=str(wt / "_evidence"), PYTHONPATH="/verif", ESV_WORKERS=os.environ.get("ESV_WORKERS", "6"))
-        for prop in built_props():
+        props = built_props()
+        if os.environ.get("CONFIRM_MODE") == "fast":
+            prev = {}
+            pm = OUT / sid / "meta.json"
+            if pm.exists():
+                prev = json.load(open(pm)).get("caught_by") or {}
+            props = sorted({sid.split("-")[0]} | set(prev))
+        for prop in props:
             rc_c, out_c = sh([PY, "-m", "esv", "check", prop], cwd="/verif", env=cenv)
             if rc_c != 0:
                 import re
